@@ -169,6 +169,20 @@ func gen(tier string, rng *h.Rng, emit func(string)) {
 	for n := 1; n <= 3; n++ {
 		emit(fmt.Sprintf("race %d", n))
 	}
+	// commit-reveal glue: secrets with 0..32 leading zero bytes (randSeed = 256^k bounds the secret below 256^k)
+	reps := 1
+	if thorough {
+		reps = 6
+	}
+	for r := 0; r < reps; r++ {
+		for k := 0; k <= 32; k++ {
+			seed := new(big.Int).Lsh(big.NewInt(1), uint(8*k))
+			emit(fmt.Sprintf("cr %s %s", seed, u256Boundary(rng, k+r)))
+		}
+		emit("cr 2 7")
+		emit("cr 0 1") // no seed yet: the code's default modulus
+		emit(fmt.Sprintf("cr %s 3", rng.Big(max256)))
+	}
 	// configuration histories: setters, reconnects, failures, then a call
 	prices := []string{"0", "1", "20000000000", "5000000000", "9223372036854775807"}
 	limits := []string{"21000", "800000", "5000000", "4700000"}
